@@ -48,6 +48,17 @@ theorem c08_opus_call (mtu : UInt16) (input : Option Bytes) :
   | none => simp
   | some p => cases p <;> simp
 
+/-- Opus returns the input as exactly one fragment, whatever the MTU (0 included), over any history -/
+theorem c08_opus_one_fragment (calls : List (UInt16 × Option Bytes)) :
+    C08.opusOneFragment calls (calls.map fun (m, b) => PayObs.ofFrags (opusPayload m b)) = true := by
+  induction calls with
+  | nil => rfl
+  | cons c cs ih =>
+    obtain ⟨m, b⟩ := c
+    cases b with
+    | none => simpa [C08.opusOneFragment] using ih
+    | some p => simpa [C08.opusOneFragment, PayObs.ofFrags, opusPayload] using ih
+
 theorem c08_opus_hist (calls : List (UInt16 × Option Bytes)) :
     C08.histOk true calls (calls.map fun (m, b) => PayObs.ofFrags (opusPayload m b)) = true := by
   induction calls with
